@@ -18,7 +18,8 @@ import (
 func TestVerifC13(t *testing.T) {
 	m := vk.NewMonitor("C13", "", "exploration",
 		"(a) controlled schedules of the convoy idle-GC path (utp1..utp3) against 1-2 producers (start, utp4, utp6, utp5) on the same flow plus channel-reuse probes on other flows, and seeded stress rounds; "+
-			"(b) seeded concurrent histories of GetOrCreate/WriteTo/read-error/invalidate/Reset/janitor on few endpoint keys over fake dialers with scripted dial outcomes; "+
+			"(b) seeded concurrent histories of GetOrCreate/Get/WriteTo/read-error/per-family invalidate/Remove/Reset/janitor on few endpoint keys over fake dialers with scripted dial outcomes and routing selections, "+
+			"sequential retry histories (first dial fails with an unusable-family error, re-selection switches family/dialer, then per-(dialer, family) health changes) and late clean-ups by a stale holder after the key was re-created; "+
 			"(c) seeded sequential and concurrent retain/release/adopt histories on real controlPlaneCore owners and drain trackers. "+
 			"distinct = observed hook-point trace of a controlled schedule, stress configuration x recreation outcome, endpoint history shape (ops x faults x outcome classes), tracker history shape; "+
 			"non-trivial = the schedule/history contains at least one racing step pair (all do by construction)")
@@ -51,9 +52,16 @@ func TestVerifC13(t *testing.T) {
 		c13EndpointMixed(m)
 		c13EndpointJanitor(m)
 		c13EndpointNegativeCacheExpiry(m)
+		c13EndpointRetryFamily(m)
+		c13EndpointLateCleanup(m)
+		c13HandlePktFlows(m)
 		m.Require("b_herd_rounds", "b_mixed_rounds", "b_deadwindow_rounds", "b_deadwindow_dead_endpoint_still_in_table", "b_hook_uep1", "b_hook_uep2", "b_stalecreate_replaced", "b_stalecreate_survived_with_traffic",
 			"b_calls_created", "b_calls_reused", "b_calls_dial_error", "b_calls_negative_cache", "b_mixed_invalidations",
-			"b_negexp_marker_expired_in_place", "b_janitor_identity_judged", "b_janitor_idle_endpoints_closed_by_janitor", "b_non_packet_conns")
+			"b_negexp_marker_expired_in_place", "b_janitor_identity_judged", "b_janitor_idle_endpoints_closed_by_janitor", "b_non_packet_conns",
+			"b_retry_rounds", "b_retry_family_switched_endpoints", "b_retry_dialer_switched_endpoints", "b_retry_own_type_invalidated_before_traffic_after_switch",
+			"b_retry_calls_after_own_invalidation", "b_retry_replaced_after_own_invalidation", "b_retry_other_type_invalidations",
+			"b_latecleanup_rounds", "b_latecleanup_stale_remove_after_replacement", "b_latecleanup_replacement_kept", "b_latecleanup_regular_remove_then_redial",
+			"b_hp_rounds", "b_hp_rounds_route_scope_sensitive", "b_hp_sources_with_nonzero_scope_mark", "b_hp_rounds_mixed_payload_shapes", "b_hp_later_packet_same_endpoint", "b_hp_packets_written")
 	}
 	if want("c") {
 		c13GenerationsSequential(m)
